@@ -30,122 +30,181 @@ def run(chk):
     chk.explain("R1/R2 prune tests as decision tables; R3 complete, non-aliasing recursion and leaf rendering; R4 own-index tags; R5 "
                 "translation of assertion JSON into pruning tuples.")
     chk.trust("symx decision tables", "set equality / membership semantics of Python sets")
-    fn = chk.fn(VIS, "buildRemainingTreeAsLists")
+    fn = chk.fn(VIS, "buildRemainingTreeAsLists", canonical=True)
     where = f"{VIS}:buildRemainingTreeAsLists"
     params = [a.arg for a in fn.args.args]
     if len(params) != 4:
         raise AnalysisError("buildRemainingTreeAsLists: unexpected signature")
     c, S_, WO, IRV = params
-    loops = [l for l in fn.body if isinstance(l, ast.For)]
-    # the two tag lists: what the pruned leaf is built from
-    NT, IT = "NEBTags", "IRVTags"
-    for lc in [x for x in ast.walk(fn) if isinstance(x, ast.Call) and norm(x.func) == "LeafNode"]:
-        kwl = {k.arg: k.value for k in lc.keywords}
-        if isinstance(kwl.get("NEBTagList"), ast.Name) and isinstance(kwl.get("IRVTagList"), ast.Name):
-            NT, IT = kwl["NEBTagList"].id, kwl["IRVTagList"].id
-    rn = [r.value.id for r in walk_local(fn) if isinstance(r, ast.Return) and isinstance(r.value, ast.Name)]
-    TREE = rn[0] if rn else "tree"
+    # The canonical form (canon.inline_aliases) has turned "flag + filter-append loop" into
+    #     TAGS = [tag for i, a in enumerate(LIST) if test]        and the flag into        TAGS1 or TAGS2
+    # so the function is read as: two tag lists, one decision, three outcomes -- however the maintainers spell it.
+    comps = {}
+    for st in fn.body:
+        if isinstance(st, ast.Assign) and len(st.targets) == 1 and isinstance(st.targets[0], ast.Name) and isinstance(st.value, ast.ListComp) \
+                and len(st.value.generators) == 1:
+            g = st.value.generators[0]
+            src = g.iter.args[0] if isinstance(g.iter, ast.Call) and norm(g.iter.func) == "enumerate" and len(g.iter.args) == 1 else g.iter
+            if norm(src) in (WO, IRV) and norm(src) not in comps:
+                comps[norm(src)] = (st.targets[0].id, st.value, st)
+    NT = comps[WO][0] if WO in comps else None
+    IT = comps[IRV][0] if IRV in comps else None
     specs = {
-        WO: ("C20.R1", "neb-prune-test", "{c} == {v}[0] and {v}[1] in {S}", NT,
+        WO: ("C20.R1", "neb-prune-test", "{c} == {v}[0] and {v}[1] in {S}", "NEBTags",
              "prune at (c, S) by a not-eliminated-before assertion iff c is its loser and its winner is still in S"),
-        IRV: ("C20.R2", "nen-prune-test", "{c} == {v}[0] and {v}[1] == {S}", IT,
+        IRV: ("C20.R2", "nen-prune-test", "{c} == {v}[0] and {v}[1] == {S}", "IRVTags",
               "prune at (c, S) by a not-eliminated-next assertion iff c is its candidate and its eliminated set equals S"),
     }
-    flag = None
-    for lst, (rule, key, cond_src, tags, what) in specs.items():
-        ls = [l for l in loops if lst in norm(l.iter)]
+    for lst, (rule, key, cond_src, label, what) in specs.items():
         ok = ok_tag = False
         detail = {}
-        if len(ls) == 1:
-            l = ls[0]
-            it = l.iter
-            idxv = None
-            if isinstance(it, ast.Call) and norm(it.func) == "enumerate" and norm(it.args[0]) == lst and isinstance(l.target, ast.Tuple):
-                idxv, v = [norm(e) for e in l.target.elts]
-            elif norm(it) == lst:
-                v = norm(l.target)
-            else:
-                v = None
-            ifs = [s for s in l.body if isinstance(s, ast.If)]
-            if v is not None and len(l.body) == 1 and len(ifs) == 1 and not ifs[0].orelse:
-                got = Tx().cond(ifs[0].test)
+        node = fn
+        if lst in comps:
+            name, lc, node = comps[lst]
+            g = lc.generators[0]
+            idxv = v = None
+            if isinstance(g.iter, ast.Call) and norm(g.iter.func) == "enumerate" and isinstance(g.target, ast.Tuple) and len(g.target.elts) == 2:
+                idxv, v = [norm(e) for e in g.target.elts]
+            elif norm(g.iter) == lst:
+                v = norm(g.target)
+            if v is not None and g.ifs:
+                got = symx.c_and(*[Tx().cond(i) for i in g.ifs])
                 want = spec.cond_term(cond_src.format(c=c, v=v, S=S_))
                 okc, n, cex = aud.cond_equiv(got, want)
-                sets = [(t, val, s) for t, val, s in stores(ifs[0]) if isinstance(t, ast.Name)]
-                flags = [norm(t) for t, val, s in sets if norm(val) == "True"]
-                apps = [x for x in walk_local(ifs[0]) if isinstance(x, ast.Call) and norm(x.func) == f"{tags}.append"]
-                esc = [x for x in walk_local(l) if isinstance(x, (ast.Break, ast.Continue, ast.Return))]
-                ok = okc and len(flags) == 1 and len(apps) == 1 and not esc
-                if flags:
-                    flag = flags[0] if flag in (None, flags[0]) else "?"
+                # the list is bound once and only read afterwards
+                binds = [x for x in ast.walk(fn) if isinstance(x, ast.Name) and x.id == name and isinstance(x.ctx, (ast.Store, ast.Del))]
+                muts = [x for x in ast.walk(fn) if isinstance(x, ast.Call) and isinstance(x.func, ast.Attribute) and norm(x.func.value) == name]
+                ok = okc and len(binds) == 1 and not muts
                 detail = dict(test=fmt_cond(got), rows=n)
-                # R4 own index
-                if apps and isinstance(apps[0].args[0], ast.Tuple) and len(apps[0].args[0].elts) == 2:
-                    first, second = [norm(e) for e in apps[0].args[0].elts]
+                if isinstance(lc.elt, ast.Tuple) and len(lc.elt.elts) == 2:
+                    first, second = [norm(e) for e in lc.elt.elts]
                     ok_tag = idxv is not None and first == idxv and second == f"{v}[2]"
-                    detail["tag"] = norm(apps[0].args[0])
-        chk.ob(rule, where, key, ok, what + "; every assertion of the list is examined", node=ls[0] if ls else fn, **detail)
-        chk.ob("C20.R4", where, f"own-index-tag:{'NEBTags' if lst == WO else 'IRVTags'}", ok_tag,
-               "the tag recorded for a matching assertion is (its own position in the list, its proved flag)", node=ls[0] if ls else fn,
+                    detail["tag"] = norm(lc.elt)
+        chk.ob(rule, where, key, ok, what + "; every assertion of the list is examined", node=node, **detail)
+        chk.ob("C20.R4", where, f"own-index-tag:{label}", ok_tag,
+               "the tag recorded for a matching assertion is (its own position in the list, its proved flag)", node=node,
                tag=detail.get("tag"))
         chk.exhaustive = True
-    # tag lists start empty, flag starts False
-    inits = {norm(s.targets[0]): norm(s.value) for s in fn.body if isinstance(s, ast.Assign) and isinstance(s.targets[0], ast.Name)}
-    chk.ob("C20.R4", where, "tags-start-empty", inits.get(NT) == "[]" and inits.get(IT) == "[]" and flag is not None
-           and inits.get(flag) == "False", "tag lists start empty and the prune flag starts False at every node", node=fn)
-    # ---- R3 decision structure after the loops
-    dec = [s for s in fn.body if isinstance(s, ast.If) and flag and norm(s.test) == flag]
+    chk.ob("C20.R4", where, "tags-start-empty", NT is not None and IT is not None,
+           "both tag lists are built afresh at every node from the matching assertions only (a filter over the whole list: empty "
+           "when nothing matches)", node=fn)
+    # ---- R3 the decision, by paths
     ok_prec = ok_leaf = ok_rec = False
     detail = {}
-    if len(dec) == 1:
-        d = dec[0]
-        # pruned leaf
-        pl = [x for x in ast.walk(ast.Module(body=d.body, type_ignores=[])) if isinstance(x, ast.Call) and norm(x.func) == "LeafNode"]
-        if len(pl) == 1:
-            kw = {k.arg: norm(k.value) for k in pl[0].keywords}
-            ok_prec = kw.get("cand") == c and kw.get("NEBTagList") == NT and kw.get("IRVTagList") == IT
-        # elif not S: unpruned leaf; else recurse
-        if len(d.orelse) == 1 and isinstance(d.orelse[0], ast.If):
-            e = d.orelse[0]
-            t = norm(e.test)
-            empty = t in (f"not{S_}", f"len({S_})==0")
-            if empty:
-                ul = [x for x in ast.walk(ast.Module(body=e.body, type_ignores=[])) if isinstance(x, ast.Call) and norm(x.func) == "LeafNode"]
-                if len(ul) == 1:
-                    kw = {k.arg: norm(k.value) for k in ul[0].keywords}
-                    ok_leaf = kw.get("cand") == c and kw.get("NEBTagList") == "[]" and kw.get("IRVTagList") == "[]"
-                rec_body = e.orelse
-                rl = [l for l in rec_body if isinstance(l, ast.For)]
-                if len(rl) == 1 and norm(rl[0].iter) == S_:
-                    l = rl[0]
+    problems = []
+    n_prune = n_leaf = n_rec = 0
+    seen_leaf_ctors = set()
+    if NT and IT:
+        prune_c = symx.c_or(("atom", f"truthy({NT})"), ("atom", f"truthy({IT})"))
+        empty_c = symx.c_not(("atom", f"truthy({S_})"))
+        body = [x for x in fn.body if not (isinstance(x, ast.Expr) and isinstance(x.value, ast.Constant))]
+        for p_ in paths(body):
+            pol_prune = pol_empty = None
+            for e in p_.events:
+                if e[0] != "test":
+                    continue
+                try:
+                    cnd = Tx().cond(e[1])
+                except symx.Unsupported:
+                    continue
+                if cnd in (True, False):
+                    continue
+                for target, nm in ((prune_c, "prune"), (empty_c, "empty")):
+                    if aud.cond_equiv(cnd, target)[0]:
+                        val = e[2]
+                    elif aud.cond_equiv(cnd, symx.c_not(target))[0]:
+                        val = not e[2]
+                    else:
+                        continue
+                    if nm == "prune":
+                        pol_prune = val
+                    else:
+                        pol_empty = val
+            stm = [e[1] for e in p_.events if e[0] in ("stmt", "loop")]
+            ret = stm[-1] if stm and isinstance(stm[-1], ast.Return) else None
+            if p_.exit != "return" or ret is None:
+                problems.append("a path does not end in a return")
+                continue
+            val = ret.value
+            if isinstance(val, ast.Name):  # the value last bound to that name on this path
+                defs = [x for x in stm if isinstance(x, ast.Assign) and len(x.targets) == 1 and norm(x.targets[0]) == val.id]
+                tree_name = val.id
+                val = defs[-1].value if defs else None
+            else:
+                tree_name = None
+            loops_on = [x for x in stm if isinstance(x, (ast.For, ast.While))]
+            leaf = val.elts[0] if isinstance(val, ast.List) and len(val.elts) == 1 and isinstance(val.elts[0], ast.Call) \
+                and norm(val.elts[0].func) == "LeafNode" else None
+            kw = {k.arg: norm(k.value) for k in leaf.keywords} if leaf is not None else {}
+            if leaf is not None:
+                seen_leaf_ctors.add(id(leaf))
+            if pol_prune is None:
+                problems.append("a path returns without consulting the prune decision")
+            elif pol_prune:
+                n_prune += 1
+                if not (kw.get("cand") == c and kw.get("NEBTagList") == NT and kw.get("IRVTagList") == IT and not loops_on):
+                    problems.append("prune path: not a leaf carrying both tag lists")
+            elif pol_empty is None:
+                problems.append("an unpruned path returns without testing whether S is empty")
+            elif pol_empty:
+                n_leaf += 1
+                if not (kw.get("cand") == c and kw.get("NEBTagList") == "[]" and kw.get("IRVTagList") == "[]" and not loops_on):
+                    problems.append("unpruned empty-S path: not a leaf with two empty tag lists")
+            else:
+                n_rec += 1
+                good = False
+                if isinstance(val, ast.List) and len(val.elts) == 2 and norm(val.elts[0]) == c and len(loops_on) == 1 \
+                        and isinstance(loops_on[0], ast.For) and norm(loops_on[0].iter) == S_:
+                    kids = val.elts[1]
+                    receivers = []
+                    if isinstance(kids, ast.List) and not kids.elts and tree_name:
+                        receivers.append(f"{tree_name}[1]")
+                    if isinstance(kids, ast.Name):
+                        kd = [x for x in stm if isinstance(x, ast.Assign) and norm(x.targets[0]) == kids.id]
+                        if len(kd) == 1 and norm(kd[0].value) == "[]":
+                            receivers.append(kids.id)
+                            if tree_name:
+                                receivers.append(f"{tree_name}[1]")
+                    l = loops_on[0]
                     c2 = norm(l.target)
                     calls = [x for x in walk_local(l) if isinstance(x, ast.Call) and norm(x.func) == fn.name]
-                    copies = [s for s in l.body if isinstance(s, ast.Assign) and norm(s.value) in (f"{S_}.copy()", f"set({S_})", f"{S_}-{{{c2}}}", f"{S_}.difference({{{c2}}})")]
-                    if len(calls) == 1 and len(copies) == 1:
-                        sm = norm(copies[0].targets[0])
-                        removed = any(isinstance(x, ast.Call) and norm(x.func) in (f"{sm}.remove", f"{sm}.discard") and norm(x.args[0]) == c2
-                                      for x in walk_local(l)) or norm(copies[0].value) in (f"{S_}-{{{c2}}}", f"{S_}.difference({{{c2}}})")
-                        args = [norm(a) for a in calls[0].args]
-                        appended = isinstance(parent(calls[0]), ast.Call) and norm(parent(calls[0]).func) == f"{TREE}[1].append"
+                    copies = [s0 for s0 in l.body if isinstance(s0, ast.Assign) and norm(s0.value) in (f"{S_}.copy()", f"set({S_})", f"{S_}-{{{c2}}}", f"{S_}.difference({{{c2}}})")]
+                    if len(calls) == 1:
+                        args = calls[0].args
+                        sm_ok = False
+                        if len(copies) == 1 and len(args) == 4:
+                            sm = norm(copies[0].targets[0])
+                            removed = any(isinstance(x, ast.Call) and norm(x.func) in (f"{sm}.remove", f"{sm}.discard") and norm(x.args[0]) == c2
+                                          for x in walk_local(l)) or norm(copies[0].value) in (f"{S_}-{{{c2}}}", f"{S_}.difference({{{c2}}})")
+                            sm_ok = removed and norm(args[1]) == sm
+                        elif len(args) == 4 and norm(args[1]) in (f"{S_}-{{{c2}}}", f"{S_}.difference({{{c2}}})"):
+                            sm_ok = True
+                        appended = isinstance(parent(calls[0]), ast.Call) and isinstance(parent(calls[0]).func, ast.Attribute) \
+                            and parent(calls[0]).func.attr == "append" and norm(parent(calls[0]).func.value) in receivers \
+                            and isinstance(parent(parent(calls[0])), ast.Expr) and parent(parent(parent(calls[0]))) is l
                         esc = [x for x in walk_local(l) if isinstance(x, (ast.Break, ast.Continue, ast.Return))]
-                        ok_rec = removed and args == [c2, sm, WO, IRV] and appended and not esc
+                        good = sm_ok and len(args) == 4 and norm(args[0]) == c2 and [norm(a_) for a_ in args[2:]] == [WO, IRV] and appended and not esc
                         detail["recursive_call"] = norm(calls[0])
+                if not good:
+                    problems.append("recursion path: not one child per element of S built on S minus that element")
+        ok_prec = n_prune >= 1 and not [x for x in problems if x.startswith("prune path")]
+        ok_leaf = n_leaf >= 1 and not [x for x in problems if x.startswith("unpruned empty")]
+        ok_rec = n_rec >= 1 and not [x for x in problems if x.startswith("recursion path")]
     rets_all = [r for r in walk_local(fn) if isinstance(r, ast.Return)]
     leafs_all = [x for x in ast.walk(fn) if isinstance(x, ast.Call) and norm(x.func) == "LeafNode"]
-    inside = [r for r in rets_all if dec and any(a is dec[0] for a in ancestors(r))]
-    toplevel = [r for r in rets_all if parent(r) is fn]
-    only = len(rets_all) == len(inside) + len(toplevel) and len(toplevel) <= 1 and len(leafs_all) == 2 and \
-        all(r.lineno > dec[0].lineno for r in toplevel) if dec else False
+    in_loops = [r for r in rets_all if any(isinstance(a_, (ast.For, ast.While)) for a_ in ancestors(r))]
+    structural = [x for x in problems if not (x.startswith("prune path") or x.startswith("unpruned empty") or x.startswith("recursion path"))]
+    only = bool(NT and IT) and not structural and not in_loops and all(id(x) in seen_leaf_ctors for x in leafs_all)
     chk.ob("C20.R3", where, "single-decision", bool(only),
            "the node's fate is decided only by the prune / empty / recurse decision after both assertion lists were examined: no other "
-           "return and no other leaf constructor", node=fn, returns=[r.lineno for r in rets_all], leaf_ctors=len(leafs_all))
+           "return and no other leaf constructor", node=fn, problems=structural, returns=len(rets_all), leaf_ctors=len(leafs_all))
     chk.ob("C20.R3", where, "prune-takes-precedence", ok_prec,
-           "when some assertion prunes, the node becomes a leaf carrying both tag lists (whether or not S is empty)", node=dec[0] if dec else fn)
+           "when some assertion prunes, the node becomes a leaf carrying both tag lists (whether or not S is empty)", node=fn, paths=n_prune)
     chk.ob("C20.R3", where, "unpruned-leaf", ok_leaf,
-           "when nothing prunes and S is empty the result is a leaf with two empty tag lists", node=dec[0] if dec else fn)
+           "when nothing prunes and S is empty the result is a leaf with two empty tag lists", node=fn, paths=n_leaf)
     chk.ob("C20.R3", where, "complete-recursion", ok_rec,
            "when nothing prunes and S is non-empty there is exactly one child per element c2 of S, built with S minus c2 on a copy and "
-           "the same assertion lists", node=dec[0] if dec else fn, **detail)
+           "the same assertion lists", node=fn, paths=n_rec, **detail)
     # S is never mutated / rebound
     muts = [norm(x)[:60] for x in walk_local(fn) if isinstance(x, ast.Call) and isinstance(x.func, ast.Attribute) and norm(x.func.value) == S_
             and x.func.attr in ("remove", "discard", "add", "pop", "clear", "update", "difference_update", "intersection_update")]
@@ -167,7 +226,7 @@ def run(chk):
     chk.ob("C20.R3", f"{VIS}:treeListToTuple", "marker-iff-both-empty", ok and len(others) == 1,
            "the 'Unpruned leaf' marker is produced exactly when both tag lists of a leaf are empty", node=tl)
     # ---- R5 parseAssertions
-    pa = chk.fn(VIS, "parseAssertions")
+    pa = chk.fn(VIS, "parseAssertions", canonical=True)
     rt = [r for r in walk_local(pa) if isinstance(r, ast.Return) and isinstance(r.value, ast.Tuple) and len(r.value.elts) == 4]
     WOL, IRVL = (norm(rt[0].value.elts[2]), norm(rt[0].value.elts[3])) if rt else ("WOLosers", "IRVElims")
     DET = "a_detail"
